@@ -17,7 +17,7 @@ func TestC16(t *testing.T) {
 	mon.Main(t, mon.Check{
 		ID:          "C16",
 		Level:       "exploration",
-		Rule:        "(R) read fragmentation: the same handshake (same static keys, passphrase, deterministic ephemeral keys, version ranges, auth payload 0..1 MiB) is run unfragmented and over streams whose every Read returns at most k bytes, k in {1,2,3,7,16,33,100} or a PRNG sequence, for both roles, XX and KK; afterwards records of sizes {0,1,15,16,17,100,65535} are read through the same fragmenting stream. Oracle: identical outcome (success, negotiated version, payload, traffic keys, plaintexts). (P) pipelining: the party that sends the last act writes its first record right behind it and both arrive in one chunk (read caps 0/1/7/64/100/4096); the record must be read back. (W) partial writes: a writer that accepts bytes only up to the next cut of a partition and then returns a timeout error; for payload sizes {0,1,15,16,17,100} all two-way and all three-way splits of the record's 18+len+16 wire bytes, PRNG finer partitions for 1000 and 65535 bytes; Flush is repeated until it succeeds and WriteMessage is attempted in between. Oracle: the bytes emitted, concatenated, equal the single-shot encoding produced by a bit-identical twin session; the counts returned by the Flush calls add up to len(plaintext); every WriteMessage between the first and the last Flush returns ErrMessageNotFlushed and changes nothing; the peer decrypts the plaintext. Non-trivial = every case (each fragments); distinct = (kind, sizes, fragmentation).",
+		Rule:        "(R) read fragmentation: the same handshake (same static keys, passphrase, deterministic ephemeral keys, version ranges, auth payload 0..1 MiB) is run unfragmented and over streams whose every Read returns at most k bytes, k in {1,2,3,7,16,33,100} or a PRNG sequence, for both roles, XX and KK; afterwards records of sizes {0,1,15,16,17,100,65535} are read through the same fragmenting stream. Oracle: identical outcome (success, negotiated version, payload, traffic keys, plaintexts). (P) pipelining: the party that sends the last act writes its first record right behind it and both arrive in one chunk (read caps 0/1/7/64/100/4096); the record must be read back. (W) partial writes: a writer that accepts bytes only up to the next cut of a partition and then returns a timeout error; for payload sizes {0,1,15,16,17,100} all two-way and all three-way splits of the record's 18+len+16 wire bytes, PRNG finer partitions for 1000 and 65535 bytes; Flush is repeated until it succeeds and WriteMessage is attempted in between; for every other partition a record of the peer is read on the same Machine after the first interruption (full duplex). Oracle: the bytes emitted, concatenated, equal the single-shot encoding produced by a bit-identical twin session; the counts returned by the Flush calls add up to len(plaintext); every WriteMessage between the first and the last Flush returns ErrMessageNotFlushed and changes nothing; the peer decrypts the plaintext. Non-trivial = every case (each fragments); distinct = (kind, sizes, fragmentation).",
 		Assumptions: []string{"twin sessions are made bit-identical through the EphemeralGen field of BrontideMachineConfig"},
 		Exhaustive:  false,
 		NCases: func(tier string) int {
@@ -311,6 +311,37 @@ func runC16Writes(c *mon.Case) {
 			if !errors.As(err, &te) || flushes > len(cuts)+3 {
 				c.Shard.Violate("flush-error", fmt.Sprintf("Flush #%d returned %v (cuts %v, payload %d)", flushes, err, cuts, size), rep)
 				return
+			}
+			// Full duplex: while this record is pending, a record of the
+			// peer is read on the same Machine (every other partition,
+			// after the first interruption); it must not disturb the
+			// pending one.
+			if pi%2 == 1 && flushes == 1 {
+				q := eng.MsgBytes('r', pi, 1+pi%40)
+				var back, tback bytes.Buffer
+				if err := live.S.M.WriteMessage(q); err != nil {
+					c.Shard.Inconc("reverse write failed")
+					return
+				}
+				if _, err := live.S.M.Flush(&back); err != nil {
+					c.Shard.Inconc("reverse flush failed")
+					return
+				}
+				got, err := live.C.M.ReadMessage(&back)
+				if err != nil || !bytes.Equal(got, q) {
+					c.Shard.Violate("reverse-read-with-pending-write", fmt.Sprintf("a record of the peer read while an outgoing record was partly flushed (%d of %d wire bytes): err=%v", len(w.out)-w.base, total, err), rep)
+					return
+				}
+				_ = twin.S.M.WriteMessage(q)
+				if _, err := twin.S.M.Flush(&tback); err != nil {
+					c.Shard.Inconc("twin reverse flush failed")
+					return
+				}
+				if _, err := twin.C.M.ReadMessage(&tback); err != nil {
+					c.Shard.Inconc("twin reverse read failed")
+					return
+				}
+				c.Shard.Count("reads_interleaved_with_pending_writes", 1)
 			}
 			// a new record must be refused while this one is pending,
 			// and the refusal must not disturb it
